@@ -23,6 +23,8 @@ def run(ctx):
         # make the network as redundant as the template allows
         sv0 = session.apply_edit(sv0, {"k": "AddConsistentObs", "s": 9})
         e = s["edits"][0]["e"]
+        if e["k"] == "Blunder" and e.get("sig", 10) != 10:
+            sv0.params["sigma-apr"] = float(e["sig"])           # a-priori reference deviation differs from the standard deviations of the observations
         sv1 = session.apply_edit(sv0, e)
         variants = [("edit", sv1)]
         if e["k"] == "Blunder":
@@ -57,9 +59,15 @@ def run(ctx):
             if not re.search(r"^\s*X\s+\S", txt, re.M):
                 report("isolate_unreported", "removed point X is not listed with a reason in the text output")
             continue
-        o = sv.obs[e["obs"] - 1]
-        tmap = {"dh": "dh", "s-distance": "s-distance", "z-angle": "z-angle"}
-        key = (o["t"],) + (tuple(sorted((o["fr"], o["to"]))) if o["t"] == "distance" else (o["fr"], o["to"]))
+        o = sv.obs[session.resolve_obs(sv, e["obs"]) - 1]
+        ang = o["t"] in ("direction", "angle", "azimuth", "z-angle")
+        m0, sd = sv.params["sigma-apr"], sv.sd(o["t"])
+        rel_ = "m0=stdev" if abs(m0 - sd) < 1e-9 else "m0<stdev" if m0 < sd else "m0>stdev"
+        tag = "%s|%s|%s|%s" % (ss[si]["net"]["t"], e["k"], "angular" if ang else "linear", rel_ if ang else "any")
+
+        def report(chk, msg, job=job, tag=tag, e=e):
+            ctx.violation("%s|%s" % (chk, tag), "%s: %s" % (e, msg), replay={"gkf": job["gkf"], "session": ss[si]})
+        key = (o["t"],) + (tuple(sorted((o["fr"], o["to"]))) if o["t"] == "distance" else (o["fr"], o["to"], o["to2"]) if o["t"] == "angle" else (o["fr"], o["to"]))
         if cls != "adjusted":
             report("outcome", "network with one blunder is not adjusted (%s): %s" % (cls, run.out[-300:]))
             continue
